@@ -1346,7 +1346,9 @@ def run(c):
         "least-squares quality and constraint satisfaction between test points are numerical: checked per "
         "instance against an independent QP / lstsq reference, not proved",
     ]
-    c.prove()
+    from .translate_c20 import gen_bspline
+
+    c.prove(extra=gen_bspline(c))  # + BSpline.basis / BSpline1D.__call__ translated from the source on every run
     nexh = stream_exhaustive(c, c.big)
     stream_eval1d(c, c.n(40, 1200))
     stream_eval2d(c, c.n(16, 400))
